@@ -4,7 +4,7 @@ use crate::engine::*;
 use crate::fail;
 use crate::model::node::{compare_node, NodeModel};
 use crate::util::{self, clock};
-use sentinel_core::base::{ConcurrencyStat, ReadStat, StatNode};
+use sentinel_core::base::{ConcurrencyStat, StatNode};
 use sentinel_core::{circuitbreaker, flow, hotspot, isolation, stat, system};
 use serde::Serialize;
 use std::sync::Arc;
